@@ -5,7 +5,7 @@ from ..analysis import (backslice, aggregates, agg_field, switch_targets_bool, c
                         direct_field, dominated_region, return_variants_from, comparisons, branch_of)
 from ..callgraph import CallGraph, sink_kind, open_mode
 from ..flow import Flow, fmt_node
-from ..facts import const_int, op_local, op_place, op_const
+from ..facts import const_int, op_local, op_place, op_const, place_fields
 
 DOC = {
     'explanation': 'Decided: the retained set of partition() is topped up to max(1, n) sub-groups before anything is dropped (R1); dedupe_script refuses to emit commands when '
@@ -21,6 +21,7 @@ DOC = {
         'C02.R4': 'no mutating primitive reachable from run_script has a mutated-path argument with role KEEP',
         'C02.R5': 'the regular-file filter and the length filter run before FileSubGroup::group on every path',
         'C02.R6': 'for HardLink and RefLink the group is partitioned by device before partition()',
+        'C02.R9': 'a symbolic link is never relied upon to hold the data (the metadata follow links, so with -S a link looks like a regular file): partition adds a sub-group with a real file to the retained set when that set consists of links only; dedupe_script links to a retained real file (none -> no link commands); a link is moved by copying',
         'C02.R8': 'the sub-groups that partition keeps or drops as a whole are formed as documented: by root first, then by file identifier (hard links, symlink + target), else singletons (re-evaluates C06.R4, C06.R5 on FileSubGroup::group, which dedupe::partition calls)',
         'C02.R7': 'the modification check covers the whole group, including the files that will be retained (re-evaluates C04.R1, C04.R2, C04.R3)',
     },
@@ -38,6 +39,7 @@ def run(ctx):
     r6(ctx)
     r7(ctx)
     r8(ctx)
+    r9(ctx)
     from .common import run_mandatory
     run_mandatory(ctx, 'C02')
 
@@ -368,3 +370,77 @@ def r8(ctx):
     p = ctx.lib.body('dedupe::partition')
     if p is not None:
         ctx.check(bool(p.calls(r'FileSubGroup::<.*>::group$|FileSubGroup::<F>::group$|FileSubGroup.*::group$')), 'C02.R8', 'dedupe::partition|uses-subgroups', p.where(), 'partition builds its units with FileSubGroup::group', 'partition no longer builds its units with FileSubGroup::group')
+
+
+def reads_linkness(lib, body, operand_or_call, depth=0):
+    """does the value depend on the link-ness of a path: field link_metadata, symlink_metadata / is_symlink calls, also inside closures handed to adaptors on the way"""
+    sl = backslice(body, [operand_or_call]) if isinstance(operand_or_call, dict) else None
+    calls = sl.calls if sl else [operand_or_call]
+    if sl and ('link_metadata' in sl.field_names() or sl.has_call(r'symlink_metadata$|FileType::is_symlink$')):
+        return True
+    for c in calls:
+        if c.matches(r'symlink_metadata$|FileType::is_symlink$'):
+            return True
+        for a in c.args:
+            l = op_local(a)
+            ty = body.local_ty(l) if l is not None else ''
+            cps = [lib.closure_of_type(ty)] if ty else []
+            # closures captured by reference inside other closures
+            for cp in [x for x in cps if x]:
+                cb = lib.body(cp)
+                if cb is None:
+                    continue
+                if any('link_metadata' in place_fields(st['rv'].get('p') or [0, []]) for blk in cb.blocks for st in blk['stmts'] if st['rv'].get('p')) or cb.calls(r'symlink_metadata$|FileType::is_symlink$'):
+                    return True
+                if depth < 3:
+                    for k in cb.calls():
+                        if reads_linkness(lib, cb, k, depth + 1):
+                            return True
+        if c.f.get('self_closure') and depth < 3:
+            cb = lib.body(c.f['self_closure'])
+            if cb is not None and (any('link_metadata' in place_fields(st['rv'].get('p') or [0, []]) for blk in cb.blocks for st in blk['stmts'] if st['rv'].get('p'))):
+                return True
+    return False
+
+
+def r9(ctx):
+    rule = 'C02.R9'
+    lib = ctx.lib
+    from .common import bypass_decisions
+    fm = lib.body('file::FileMetadata::new')
+    if fm is not None and fm.calls(r'^std::fs::symlink_metadata$') and not fm.calls(r'^std::fs::metadata$'):
+        ctx.ok(rule, 'dedupe::partition|links-hold-no-data', fm.where(), 'FileMetadata::new does not follow links: a symbolic link fails the regular-file test of partition')
+        return
+    pt = ctx.need_body(rule, 'dedupe::partition')
+    ds = ctx.need_body(rule, 'dedupe::PartitionedFileGroup::dedupe_script')
+    if pt is None or ds is None:
+        return
+    # (a) partition: a retained-set extension that depends on link-ness
+    ok_a = False
+    site = pt.where()
+    for c in pt.calls(r'Vec<.*>::(push|extend|insert|append)$|Extend<.*>>::extend$|::push$'):
+        names = {pt.local_name(l) for l in backslice(pt, [c.args[0]]).locals}
+        if 'to_retain' not in names:
+            continue
+        for d, bypass in bypass_decisions(pt, c.bb):
+            if reads_linkness(lib, pt, pt.blocks[d]['term']['op']):
+                ok_a = True
+                site = c.where()
+    ctx.check(ok_a, rule, 'dedupe::partition|links-hold-no-data', site, 'partition extends the retained set with a real file when it would consist of symbolic links only',
+              'partition never looks at whether a path is a symbolic link (its metadata follow links): with a report made by `group -S --isolate links data` the link and its target are two replicas, '
+              'the retained one can be the link and the dropped one the only regular file: `remove` deletes the data and leaves a dangling link')
+    # (b) the link target is chosen by link-ness
+    tgt = ds.calls(r'Vec<.*>::(swap_remove|remove)$|::swap_remove$')
+    ok_b = bool(tgt) and any(reads_linkness(lib, ds, c.args[1]) for c in tgt if len(c.args) > 1)
+    ctx.check(ok_b, rule, ds.path + '|link-target-is-real', (tgt[0].where() if tgt else ds.where()), 'the file that the dropped ones are linked to is chosen among the retained real files',
+              'the link target is simply the first retained path; when that is a symbolic link (report made with -S), `link` makes a hard link to the symlink itself (linkat does not follow): '
+              'a relative link dangles at the new place and the original path no longer reads back its bytes')
+    # (c) a link is not moved by rename
+    mv = [st for bi, st in aggregates(ds, 'dedupe::FsCommand', variant='Move')] if aggregates(ds, 'dedupe::FsCommand', variant='Move') else []
+    if mv:
+        ur = agg_field(mv[0], 'use_rename')
+        ok_c = ur is not None and reads_linkness(lib, ds, ur)
+        ctx.check(ok_c, rule, ds.path + '|move-link-by-copy', ds.where(mv[0]['line']), 'use_rename is false for a symbolic link (the file it points to is copied)',
+                  'a symbolic link reported with -S is moved with rename(): a relative link points nowhere from the target directory, the bytes are not readable there')
+    else:
+        ctx.missing(rule, 'FsCommand::Move construction in dedupe_script', ds.where())
